@@ -546,6 +546,30 @@ def concurrency_check(tier, seed):
         shutil.rmtree(work, ignore_errors=True)
 
 
+def race_is_ours(blk):
+    """A race report counts against panacea-core when at least one of the two racing ACCESSES is made by panacea-core code: the first frame of an
+    access stack that is not Go standard library belongs to github.com/medibloc/panacea-core.  A race between two accesses inside a dependency
+    (e.g. iavl's nodeDB.latestVersion, read by every iterator and written by SaveVersion) is the dependency's, whatever called it further up."""
+    stacks = []
+    for sec in blk.split('\n\n'):
+        lines = [l for l in sec.split('\n') if l.strip()]
+        if not lines or not re.match(r'\s*(Previous )?(atomic )?(read|write) at ', lines[0], re.I):
+            continue
+        funcs = [l.strip() for l in lines[1:] if l.startswith('  ') and not l.startswith('      ')]
+        stacks.append(funcs)
+    for funcs in stacks[:2]:
+        for f in funcs:
+            first = f.split('/')[0]
+            if '.' not in first.split('(')[0].split('.')[0] and '/' not in f.split('(')[0] and not f.startswith('main.'):
+                continue          # standard library (runtime., sync., bytes., ...)
+            if '/' in f and '.' not in f.split('/')[0]:
+                continue          # standard library with a path (encoding/json., sync/atomic.)
+            if 'medibloc/panacea-core' in f:
+                return True
+            break
+    return False
+
+
 def race_run(work, seed):
     harness = vlib.build_harness(race=True)
     jobs = conc_jobs(work, seed + 3, 3, sweep=True)
@@ -555,17 +579,13 @@ def race_run(work, seed):
             f.write(json.dumps(j) + '\n')
     p = subprocess.run([harness, 'concurrent', jf, os.path.join(work, 'race-trace.ndjson')], capture_output=True, text=True, timeout=3000,
                        env=dict(os.environ, GORACE='halt_on_error=0'))
-    reports = []
-    for blk in p.stderr.split('WARNING: DATA RACE')[1:]:
+    ksp_stderr = subprocess.run([harness, 'locks-stress'], capture_output=True, text=True, timeout=600, env=dict(os.environ, GORACE='halt_on_error=0')).stderr
+    reports, dependency = [], []
+    for blk in (p.stderr.split('WARNING: DATA RACE')[1:] + ksp_stderr.split('WARNING: DATA RACE')[1:]):
         blk = blk.split('==================')[0]
-        if 'medibloc/panacea-core' in blk:
-            reports.append(blk[:3000])
-    ksp = subprocess.run([harness, 'locks-stress'], capture_output=True, text=True, timeout=600, env=dict(os.environ, GORACE='halt_on_error=0'))
-    for blk in ksp.stderr.split('WARNING: DATA RACE')[1:]:
-        blk = blk.split('==================')[0]
-        if 'medibloc/panacea-core' in blk:
-            reports.append(blk[:3000])
-    return dict(reports=reports[:5], total_race_warnings=p.stderr.count('WARNING: DATA RACE') + ksp.stderr.count('WARNING: DATA RACE'), exit=p.returncode)
+        (reports if race_is_ours(blk) else dependency).append(blk[:3000])
+    return dict(reports=reports[:5], total_race_warnings=p.stderr.count('WARNING: DATA RACE') + ksp_stderr.count('WARNING: DATA RACE'), exit=p.returncode,
+                races_inside_dependencies=len(dependency), dependency_race_sample=(dependency[0][:600] if dependency else None))
 
 
 # ---------------------------------------------------------------------------------------------
